@@ -28,6 +28,8 @@ func checkC01(c *Ctx, r *Report) {
 	// packed lookup that differs from the dense table (C05) makes the driver perform reductions that are no derivation
 	includePrereq(c, r, "C01.e", checkC09)
 	includePrereq(c, r, "C01.e", checkC05)
+	// the states on the stack must be those this parse pushed (nested parses through PushContex/PopContex)
+	c15FreshStackAll(r, "C01.e←C15.c", c.GetStaged())
 }
 
 func c01a(c *Ctx, r *Report, st *Staged) {
@@ -244,10 +246,9 @@ func c01b(c *Ctx, r *Report, st *Staged) {
 		// ReduceFunc: topIndex = pointer − 1, returns the entry built in the case
 		rf := sk.FuncDecl(map[bool]string{true: "Context", false: ""}[sk.V.Object], "ReduceFunc")
 		if rf != nil {
-			src := printNode(sk.Fset, rf.Body)
-			ok := strings.Contains(normaliseObjectText(src), "topIndex := StackPointer - 1") && strings.Contains(src, "return dollarDolar")
-			r.Check(ok, clause, "R13 AFFINE", "skeleton "+sk.V.Name+"/ReduceFunc/frame", sk.pos(rf.Pos()),
-				"topIndex = stack pointer − 1; the function returns the entry its case filled in", "ReduceFunc does not define topIndex as pointer − 1 or does not return the entry it filled")
+			why := reduceFuncFrame(sk, rf)
+			r.Check(why == "", clause, "R13 AFFINE", "skeleton "+sk.V.Name+"/ReduceFunc/frame", sk.pos(rf.Pos()),
+				"topIndex = stack pointer − 1; the function returns the entry its case filled in", "ReduceFunc does not define topIndex as pointer − 1 or does not return the entry it filled: "+why)
 		}
 	}
 	if st.TS != nil && st.TS.LexEr == "" {
